@@ -160,6 +160,67 @@ func TestC05(t *testing.T) {
 			}
 		}
 	})
+	// Serial numbers the standard library refuses to ISSUE but accepts when it parses a certificate: zero, and (for
+	// programs built from a module that says go 1.20, as the repository's is) negative ones. A list that names such a
+	// certificate's serial revokes it like any other; a list naming a neighbour does not.
+	gen.Direct(t, "zero-and-negative-serial-numbers", func(t *testing.T) {
+		i := 0
+		for _, raw := range [][]byte{{0x00}, {0xfb}, {0x80}, {0xff, 0x7f}, {0x80, 0x00, 0x00, 0x01}} {
+			for _, who := range []string{"leaf", "intermediate", "tcb-signer"} {
+				for _, listed := range []bool{true, false} {
+					i++
+					if !gen.ShardOwns(i) {
+						continue
+					}
+					spec := gen.PKISpec{Seed: fmt.Sprintf("c05-oddserial-%x-%s", raw, who)}
+					switch who {
+					case "intermediate":
+						spec.IntSerialRaw = raw
+					case "tcb-signer":
+						spec.TcbSerialRaw = raw
+					}
+					var w *gen.World
+					if v := gen.Call(func() error {
+						w = gen.NewWorld(gen.NewPKI(spec), gen.NewStream(gen.Seed()+uint64(i), "c05odd"))
+						if who == "leaf" {
+							w.LeafSpec.SerialRaw = raw
+						}
+						w.SignQuote()
+						return nil
+					}); v.Panicked() {
+						gen.Class("odd-serial:certificate-does-not-parse-in-this-environment")
+						continue // a negative serial without the go 1.20 default: the certificate cannot even be parsed here
+					}
+					entry := raw
+					if !listed {
+						entry = append(append([]byte{}, raw[:len(raw)-1]...), raw[len(raw)-1]^0x02) // a neighbour
+					}
+					if who == "leaf" {
+						w.PckCrl.RevokedRaw = [][]byte{entry}
+					} else {
+						w.RootCrl.RevokedRaw = [][]byte{entry}
+					}
+					w.BuildCollateral()
+					o := w.Options(gen.LvlCRL, w.NewGetter(), nil)
+					gen.Eval()
+					v := gen.Call(func() error { return verify.RawTdxQuote(w.Raw, o) })
+					gen.NonTrivial("odd-serial", fmt.Sprintf("%x", raw), who, listed)
+					gen.Class(fmt.Sprintf("odd-serial:listed=%v", listed))
+					switch {
+					case v.Panicked():
+						gen.Fail(t, gen.Violation{Key: "panic@" + gen.PanicSite(v.Stack), Oracle: "verification returns a verdict", Detail: v.Panic, Replay: w.CaseFile(gen.LvlCRL, nil, nil, nil, "nopanic")})
+						return
+					case listed && v.Accepted():
+						gen.Fail(t, gen.Violation{Key: "accepts-despite:" + who + "-with-a-zero-or-negative-serial-revoked", Oracle: "with revocation on, accepted only if both CRLs were obtained and authenticated and none of the four serials is listed", Detail: fmt.Sprintf("the %s certificate has the serial number with DER content %x; the authentic list of its issuer names exactly that number: accepted", who, raw), Replay: w.CaseFile(gen.LvlCRL, nil, nil, nil, "reject")})
+						return
+					case !listed && !v.Accepted():
+						gen.Fail(t, gen.Violation{Key: "rejects-unrevoked:" + who + "-with-a-zero-or-negative-serial", Oracle: "authentic CRLs that do not list the chain's certificates do not cause rejection", Detail: fmt.Sprintf("serial content %x, the list names the neighbour %x: %s", raw, entry, v), Replay: w.CaseFile(gen.LvlCRL, nil, nil, nil, "accept")})
+						return
+					}
+				}
+			}
+		}
+	})
 	signers := ok7("correct", "other-ca", "foreign-key", "wrong-name", "tampered", "tampered")
 	outcomes := ok7("ok", "error", "empty", "garbage", "pem", "other-crl")
 	gen.Prop(t, "model", gen.N(3000, 150000), func(t *rapid.T) {
